@@ -34,7 +34,8 @@ try:
                 res["checks"][c]["stderr"] = r.stderr[-800:]
     out = f"/verif/seeded/harmless/{rid}"
     os.makedirs(out, exist_ok=True)
-    shutil.copy(f"{src}/patch.diff", f"{out}/patch.diff")
+    if os.path.realpath(src) != os.path.realpath(out):
+        shutil.copy(f"{src}/patch.diff", f"{out}/patch.diff")
     meta = json.load(open(f"{src}/meta.json")); meta["verdicts"] = res
     json.dump(meta, open(f"{out}/meta.json", "w"), indent=1)
     print(rid, res["tests"], "ALARMS:" + ",".join(alarms) if alarms else "silent", flush=True)
